@@ -4,6 +4,7 @@
 -/
 import HL.Lemmas.Text
 import HL.Generated.Expect.Text
+import HL.Generated.Expect.PureText
 import HL.Generated.Expect.Dispatch
 namespace HL.Props.C01
 open HL.Text HL.Ref HL.Lemmas.Text
